@@ -10,7 +10,11 @@ IGNORE = ('_verif_id', '_verif_site')
 PRIMS = (int, float, str, bool, type(None), bytes)
 
 
-def pdiff(a, b, limit=12, ignore_attr=()):
+def pdiff(a, b, limit=12, ignore_attr=(), skip=None, slots=None, slot_cmp=None, slot_out=None):
+    """skip(owner, attr) -> True ignores that attribute of that object.
+    slots: set of (owner class name, attr) that are *declared-type slots*: they are not descended into but
+    compared with slot_cmp(x, y) (-> True when equal); differing slots are appended to slot_out as
+    (owner_a, owner_b, attr, x, y, path)."""
     out = []
     seen = set()
     ign = set(IGNORE) | set(ignore_attr)
@@ -59,7 +63,14 @@ def pdiff(a, b, limit=12, ignore_attr=()):
                 out.append((path, _r(x), _r(y)))
             continue
         keys = sorted((set(dx) | set(dy)) - ign)
+        tn = type(x).__name__
         for key in reversed(keys):
+            if skip is not None and skip(x, key):
+                continue
+            if slots is not None and (tn, key) in slots and key in dx and key in dy:
+                if not slot_cmp(dx[key], dy[key]):
+                    slot_out.append((x, y, key, dx[key], dy[key], path + '.' + key))
+                continue
             if key not in dx or key not in dy:
                 out.append((path + '.' + key, 'absent' if key not in dx else 'present',
                             'absent' if key not in dy else 'present'))
